@@ -48,7 +48,39 @@ def bool_facts(cond, truth):
         out.append(("cmp", op, cond[2], cond[3]))
     elif cond[0] == "un" and cond[1] == "Not":
         out.extend(bool_facts(cond[2], not truth))
+    elif cond[0] == "call" and len(cond[2]) == 1 and cond[1].split("::")[-1] in VARIANT_TESTS and \
+            cond[1].startswith(("std::option::Option::<", "std::result::Result::<")):
+        # `x.is_some()` and friends are tests of the discriminant
+        v = VARIANT_TESTS[cond[1].split("::")[-1]]
+        x = cond[2][0]
+        while isinstance(x, tuple) and x and x[0] in ("ref", "deref"):
+            x = x[1]
+        out.append(("discr", ("discr", x), v if truth else 1 - v))
     return out
+
+
+VARIANT_TESTS = {"is_some": 1, "is_none": 0, "is_ok": 0, "is_err": 1}
+
+
+def fact_add_fits(facts, a, b):
+    """A dominating fact that a + b does not overflow usize: `usize::MAX - a >= b` (either operand, either spelling) or
+    `a.checked_add(b)` known to be Some."""
+    a, b = strip_casts(a), strip_casts(b)
+    for f in facts:
+        if f[0] == "cmp" and f[1] in ("Ge", "Le"):
+            big, small = (f[2], f[3]) if f[1] == "Ge" else (f[3], f[2])
+            big, small = strip_casts(big), strip_casts(small)
+            if big[0] == "bin" and big[1] == "Sub" and strip_casts(big[2])[0] == "const" and strip_casts(big[2])[1] == 2 ** 64 - 1 and \
+                    {strip_casts(big[3]), small} == {a, b}:
+                return True
+        if f[0] == "discr" and f[2] == 1:
+            x = f[1]
+            while isinstance(x, tuple) and x and x[0] in ("discr", "ref", "deref"):
+                x = x[1]
+            if isinstance(x, tuple) and x and x[0] == "call" and x[1].endswith("::checked_add") and len(x[2]) == 2 and \
+                    {strip_casts(x[2][0]), strip_casts(x[2][1])} == {a, b}:
+                return True
+    return False
 
 
 def _getter_field(F, name):
@@ -210,7 +242,49 @@ def facts_at(b, block, evaluated_before=False):
             if x not in res and x not in extra:
                 extra.append(x)
     res.extend(extra)
+    # boolean-correlated facts: a dominating fact "flag is true" about a local assigned in several places (`let ok = a && b`, an
+    # inlined predicate helper, `(lo..=hi).contains(&x)`) means the assignment executed last was one that can produce true: the
+    # constant-false arms are excluded, and what held at every remaining assignment -- plus the assigned comparison itself --
+    # held on the way here.  Symmetrically for "flag is false".
+    work = [f for f in res if f[0] == "bool"]
+    done = set()
+    while work:
+        f = work.pop()
+        src = strip_casts(f[1])
+        if not (isinstance(src, tuple) and src and src[0] == "var") or (src[1], f[2]) in done:
+            continue
+        done.add((src[1], f[2]))
+        roots = _bool_defs(b, src[1])
+        if not roots:
+            continue
+        cands = []
+        for dbi, rv in roots:
+            if rv["r"] == "use" and "k" in rv["o"] and rv["o"]["k"].get("v") is not None:
+                if bool(int(rv["o"]["k"]["v"])) != f[2]:
+                    continue            # this arm assigns the other constant
+                cands.append((dbi, None))
+            else:
+                cands.append((dbi, rv))
+        if not cands or any(dbi == block for dbi, _ in cands):
+            continue
+        common = None
+        for dbi, rv in cands:
+            fs = list(facts_at(b, dbi, evaluated_before))
+            if rv is not None:
+                fs.extend(bool_facts(b.term_of_rvalue(rv), f[2]))
+            common = fs if common is None else [x for x in common if x in fs]
+        for x in common or []:
+            if x not in res:
+                res.append(x)
+                if x[0] == "bool":
+                    work.append(x)
     return res
+
+
+def _bool_defs(b, l, limit=16):
+    """Root assignments of a boolean local assigned in more than one place (see Body.root_defs)."""
+    out = b.root_defs(l, limit)
+    return out if out and len(out) > 1 else None
 
 
 def cmp_facts_at(b, block):
